@@ -133,7 +133,10 @@ Section Script.
     let cl := if clone_expected i then Some nh else None in
     let o9 := obs_ops 0 (Some hm) ++ obs_ops 1 c1 ++ obs_ops 2 c2 ++ obs_ops 3 dp ++ obs_ops 4 pk ++ obs_ops 5 cl in
     let o10 := [(0, ONewSession PA); (40, OIds ns); (0, ONewSession PB); (41, OIds (S ns))] in
-    let o11 := doc_ops 0 (Some hm) ++ doc_ops 1 c1 ++ doc_ops 2 c2 ++ doc_ops 5 cl in
+    (* documents: of the handle, of the clone, and (for re-key routes, where they must follow) of the shallow copies *)
+    let o11 := doc_ops 0 (Some hm)
+               ++ (if rekey_route (i_route i) then doc_ops 1 c1 ++ doc_ops 2 c2 else [])
+               ++ doc_ops 5 cl in
     let o13 := init_ops dp ++ init_ops pk in
     (o1 ++ o2 ++ o3 ++ o4 ++ o5a ++ o5b ++ o5c ++ [(1, OTree); (2, main); (3, OTree)] ++ o9 ++ o10 ++ o11
         ++ [(60, OTree)] ++ o13 ++ [(70, OTree)],
@@ -202,7 +205,16 @@ Section Script.
     let follower (k : nat) (i' : str) (p' : path) (sp' : json) (with_doc : bool) :=
       (m_shallow m && negb (Nat.eqb k 0)) ||
       (shows k (negb (m_cached m)) i' p' sp' && (negb with_doc || doc_is k)) in
-    let independent (k : nat) := shows k true oid src old in
+    (* a deep copy of a handle that was opened by id and never looked at its state point is a lazy
+       reference: once the job has moved away it can only fail to load, never show a wrong value *)
+    let lazy_dp := match i_prov i with PIdFresh => negb (i_access i) | _ => false end in
+    let json_or_exn (o : option oval) (v : json) :=
+      match o with Some (VJson x) => json_same x v | Some (VExn _) => true | _ => false end in
+    let independent (k : nat) :=
+      if lazy_dp && Nat.eqb k 3 then
+        negb (has k) || (is_idpath (at_ (10 + 3 * k)) oid src && json_or_exn (at_ (11 + 3 * k)) old
+                         && json_or_exn (at_ (12 + 3 * k)) old)
+      else shows k true oid src old in
     let ids_ok :=
       match at_ 40, at_ 41 with
       | Some (VStrs la), Some (VStrs lb) =>
@@ -212,10 +224,10 @@ Section Script.
     (* the independent copies are still usable: init() re-creates (or finds) the old job, touching nothing else *)
     let indep_usable :=
       tree_same_except [src] post2 final &&
-      (negb (has 3 || has 4) ||
+      (negb (has 3 || has 4) || (lazy_dp && negb (has 4)) ||
        (isdir_t final src && match file_json final (src ++ [SPF]) with Some v => json_same v old | None => false end)) in
     let common := ids_ok && independent 3 && independent 4 && indep_usable
-                  && (uninit || tree_same_except [] post post2) in
+                  && (uninit || tree_same_except (if m_shallow m then [src] else []) post post2) in
     match i_route i with
     | RMove =>
         let dst := bws ++ [oid] in
